@@ -75,6 +75,12 @@ def step_compare(run, d, world, op, hist):
         got = '%s %s' % (res[0], after)
         if after != before:
             run.fail('rejected call %r changed the definition' % (op,), after, before, hist + [line])
+        if op[0] in ('union_update', 'intersection_update') and res[0] == 'ValueError':
+            rq = 'dconflicts 0 %d' % op[1]
+            listed = defs.conflict_pairs(res[1])
+            want = drv.ask(rq)
+            if listed != want:
+                run.fail('pairs listed in the conflict message of %r' % (op,), listed, want, hist + [line, rq], {'message': res[1]})
     if got != ans:
         run.fail('after %r' % (op,), got, ans, hist + [line], {'state before': before})
     return after
